@@ -5,7 +5,7 @@ META = {
     'rule': ('The process executing the victim task is killed at every enumerated point of its save: each executed '
              'labtech line of the save path (LINE failpoint with action SIGKILL; first pass counts the lines), each '
              'write() call boundary of metadata and data file and a mid-write split (first half written), with the '
-             'buffer either flushed+fsynced or abandoned; SIGTERM instead of SIGKILL on a sample, and the real terminate-on-second-interrupt path (fork worker parks at line k of its save, the caller receives two real SIGINTs, Runner.stop() terminates it); x cache format '
+             'buffer either flushed+fsynced or abandoned; SIGTERM instead of SIGKILL on a sample, and the real terminate-on-second-interrupt path (fork worker parks at line k of its save, the caller receives two real SIGINTs, Runner.stop() terminates it), and SIGTERM delivered to a fork worker whose program installed a SIGTERM handler calling sys.exit (the worker unwinds through the exception handlers of labtech); x cache format '
              '{pickle, json} x {first save, overwrite} x shape {small, big} x victim {process running the serial '
              'backend (a forked sacrificial copy of the harness; a fresh interpreter on a sample), fork worker whose '
              'parent survives}. The verdict is taken afterwards by a process that never ran the save: is_cached, '
@@ -178,11 +178,19 @@ def run_case(case, rep=None, count_only=False):
             engine.reap_children()
             signal.signal(signal.SIGINT, signal.default_int_handler)
         else:
+            handler = kill.get('handler') and not count_only
+            if handler:
+                # the user's program has a SIGTERM handler that exits cleanly (sys.exit); forked workers inherit it,
+                # so a terminated worker unwinds through labtech's exception handlers instead of dying on the spot
+                signal.signal(signal.SIGTERM, lambda *_a: sys.exit(1))
             try:
                 res = victim_run(case, ctl, store, spec)
             except BaseException as ex:   # noqa
                 bad.append((f'parent-raised:{type(ex).__name__}', f'fork parent: run_tasks raised {type(ex).__name__}: {ex}'))
                 res = {}
+            finally:
+                if handler:
+                    signal.signal(signal.SIGTERM, signal.SIG_DFL)
             if not count_only and case['backend'] == 'fork':
                 if 'v' in [t.name for t in res]:
                     pass     # kill point not reached or save completed
@@ -246,7 +254,8 @@ def run_case(case, rep=None, count_only=False):
             if s == 'mis-load':
                 continue
             if incomplete:
-                bad.append((f'incomplete-entry-reported-cached/{case["mode"]}:{sig}', f'{s}: killed at {out["fired"]}; post-kill '
+                graceful = '-after-sigterm-with-exit-handler' if kill.get('handler') else ''
+                bad.append((f'incomplete-entry-reported-cached{graceful}/{case["mode"]}:{sig}', f'{s}: killed at {out["fired"]}; post-kill '
                             f'state {sig}; is_cached={reported}'))
             else:
                 bad.append((f'{s.split(":")[0]}-with-complete-entry/{case["mode"]}', f'{s} although the entry looks '
@@ -290,6 +299,10 @@ def enumerate_cases(rep, stride, n_fresh):
                     elif shape == 'small':
                         for k in range(3, n + 1, max(1, n // (3 if stride > 1 else 24))):
                             cases.append(dict(cfg, kill={'kind': 'line', 'k': k, 'sig': 'park'}))
+                        # graceful termination must clean up after itself: every line of the last third of the save
+                        # (where files are open), a stride before that
+                        for k in list(range(2, 2 * n // 3, max(1, n // 10))) + list(range(2 * n // 3, n + 1, 1 if stride == 1 else 2)):
+                            cases.append(dict(cfg, kill={'kind': 'line', 'k': k, 'sig': 'term', 'handler': True}))
                     c = run_case(dict(cfg, backend='serial', kill={'kind': 'storage', 'op': 'count'}), count_only=True)
                     for fn, nw in c['writes'].items():
                         js = list(range(1, nw + 1)) if nw <= 30 else sorted(set(list(range(1, 8)) + list(range(8, nw + 1, max(1, nw // 12))) + [nw]))
@@ -323,7 +336,8 @@ def run_shard(rep):
         rep.case(json.dumps(case, sort_keys=True), True)
         rep.count('kills_delivered')
         rep.count(f"kills_{case['kill']['kind']}_{case['backend']}" + ('_fresh' if case.get('fresh_interpreter') else '')
-                  + ('_terminate_on_second_interrupt' if case['kill'].get('sig') == 'park' else ''))
+                  + ('_terminate_on_second_interrupt' if case['kill'].get('sig') == 'park' else '')
+                  + ('_sigterm_with_exit_handler' if case['kill'].get('handler') else ''))
         rep.seen('kill_sites', f"{r['fired'].get('file')}:{r['fired'].get('func')}")
         rep.seen('post_kill_signatures', f"{case['mode']}:{r.get('signature')}")
         seen = set()
